@@ -208,11 +208,19 @@ func (c *Cache) Exec(ctx context.Context, qCtx *query_context.Context, next sequ
 
 	err := next.ExecNext(ctx, qCtx)
 
-	if r := qCtx.R(); r != nil && cachedResp != r { // pointer compare. r is not cachedResp
+	if r := qCtx.R(); r != nil && cachedResp != r && respAnswersQuery(q, r) { // pointer compare. r is not cachedResp
 		saveRespToCache(msgKey, r, c.backend, c.args.LazyCacheTTL)
 		c.updatedKey.Add(1)
 	}
 	return err
+}
+
+// respAnswersQuery reports whether r carries q's question. A response that
+// was set for another question (e.g. by a plugin that ran before the query was
+// rewritten) must not be stored under q's key: a later hit would serve it,
+// foreign question and answer included, to clients asking q.
+func respAnswersQuery(q, r *dns.Msg) bool {
+	return len(q.Question) == 1 && len(r.Question) == 1 && q.Question[0] == r.Question[0]
 }
 
 // doLazyUpdate starts a new goroutine to execute next node and update the cache in the background.
@@ -233,7 +241,7 @@ func (c *Cache) doLazyUpdate(msgKey string, qCtx *query_context.Context, next se
 		}
 
 		r := qCtx.R()
-		if r != nil {
+		if r != nil && respAnswersQuery(qCtx.Q(), r) {
 			saveRespToCache(msgKey, r, c.backend, c.args.LazyCacheTTL)
 			c.updatedKey.Add(1)
 		}
